@@ -117,11 +117,13 @@ pub fn case(ctx: &mut Ctx, idx: u64) {
     let mut keys: Vec<u32> = (1..=10).collect();
     rng.shuffle(&mut keys);
     for &k in keys.iter().take(n_keys) {
+        // the key mod alone, or together with mods that have nothing to do with the key count
+        let other = *rng.pick(&[0u32, 0, 0, 8, 16, 2, 64, 8 | 64]);
         let spec = if k == 10 {
-            // 10K has no legacy bit
+            // 10K has no legacy bit: lazer mods, or the same set as intermode mods (owned / borrowed)
             ModSpec {
-                bits: 0,
-                repr: Repr::Lazer,
+                bits: other,
+                repr: *rng.pick(&[Repr::Lazer, Repr::LazerAsIntermode, Repr::LazerAsIntermodeRef]),
                 extra: crate::sets::LazerExtra {
                     ten_keys: true,
                     ..Default::default()
@@ -130,8 +132,16 @@ pub fn case(ctx: &mut Ctx, idx: u64) {
         } else {
             let bit = KEY_MODS[(k - 1) as usize];
             ModSpec {
-                bits: bit,
-                repr: *rng.pick(&[Repr::U32, Repr::Legacy, Repr::Intermode, Repr::Lazer]),
+                bits: bit | other,
+                repr: *rng.pick(&[
+                    Repr::U32,
+                    Repr::Legacy,
+                    Repr::Intermode,
+                    Repr::IntermodeRef,
+                    Repr::Lazer,
+                    Repr::LazerAsIntermode,
+                    Repr::LazerAsIntermodeRef,
+                ]),
                 extra: Default::default(),
             }
         };
